@@ -6,9 +6,17 @@
 (*           the wallet-only and bare-slash forms; all accounts offered, all validators active;   *)
 (*  "life" : simulation - validator records drawn from ALL well-formed lifecycles over the epochs *)
 (*           0..4 and FFE for four accounts, queried with every call at every epoch 0..5;         *)
-(*  "hist" : simulation - refresh histories: what the signer offers (nothing / everything / two   *)
-(*           different parts) x what the beacon node answers (error / nothing / two tables),       *)
-(*           with queries in between.                                                             *)
+(*  "hist" : simulation - histories of calls on ONE pair of instances: what the signer / the store *)
+(*           offers per refresh (nothing / everything / parts / everything but one account) x what *)
+(*           the beacon node answers (error / nothing / two tables), all four queries (by-index    *)
+(*           with index sets naming validators that are ours, not ours, no longer ours, nobody's)  *)
+(*           at any point - also BETWEEN the two parts of a refresh (RefreshBegin .. RefreshEnd:   *)
+(*           the refresh job is held at the beacon node) and with a refresh running while a query  *)
+(*           is under way (QueryBegin .. QueryEnd: the query is held at the validators manager);   *)
+(*  "vanish": exhaustive - the directed core of the class: two accounts known and their           *)
+(*           validators in the table; a refresh that offers less, with every outcome of the       *)
+(*           validators part, taken as a whole, held between its parts, or running while a query   *)
+(*           is under way; all four queries naming every index.                                   *)
 EXTENDS Accounts, Json
 
 CONSTANTS Mode, ScenLen, Mgrs
@@ -33,8 +41,6 @@ ResetJson(m, c) == [ev |-> "Reset", mgr |-> m, cfg |-> c, paths |-> [k \in 1..Le
                     wallets |-> [W |-> WAccounts, V |-> VAccounts]]
 RefreshJson(offer, out) == [ev |-> "Refresh", offer |-> offer, mode |-> out.mode, recs |-> RecsJson(out.recs)]
 QueryJson(kind, e, idxs) == [ev |-> "Query", kind |-> kind, epoch |-> e, idxs |-> idxs]
-
-Kinds == {"validating", "sync", "validating_by_index", "sync_by_index"}
 
 \* ---- family "match"
 PatSpec(w, p, a, b) == [w |-> w, form |-> "pat", p |-> p, pre |-> a, post |-> b]
@@ -83,40 +89,106 @@ LifeNext ==
 
 \* ---- family "hist"
 HistCfg == <<PatSpec("W", Cat(Lit("a"), Star(AnyChar)), FALSE, FALSE), WalletSpec("V")>>
-S1 == {<<"W", <<"a">>>>, <<"W", <<"a", "b">>>>, <<"W", <<"b">>>>, <<"V", <<"a">>>>}
-S2 == {<<"W", <<"a", "a">>>>, <<"W", <<"b", "b">>>>, <<"V", <<"b">>>>}
-HistOffers == {{}, AllNames, S1, S2}
+Wn(a) == <<"W", a>>
+Vn(a) == <<"V", a>>
+S1 == {Wn(<<"a">>), Wn(<<"a", "b">>), Wn(<<"b">>), Vn(<<"a">>)}
+S2 == {Wn(<<"a", "a">>), Wn(<<"b", "b">>), Vn(<<"b">>)}
+HistOffers == {{}, AllNames, S1, S2, AllNames \ {Wn(<<"a">>)}, AllNames \ {Vn(<<"b">>)}, S1 \ {Wn(<<"a", "b">>)}}
 HRec(n, act, exit, wd, sl) == [index |-> IndexOf(n), elig |-> 0, act |-> act, exit |-> exit, wd |-> wd, slashed |-> sl, bal0 |-> FALSE]
 T1 == [n \in AllNames |-> IF Code(n[2]) % 2 = 1 THEN HRec(n, 1, FFE, FFE, FALSE) ELSE HRec(n, 0, 3, 4, FALSE)]
 T2 == [n \in S1 \cup S2 |-> IF Code(n[2]) % 2 = 1 THEN HRec(n, 2, 4, 5, TRUE) ELSE HRec(n, 0, FFE, FFE, FALSE)]
-HistOuts == {[mode |-> "err", recs |-> NoVals], [mode |-> "ok", recs |-> NoVals],
-             [mode |-> "ok", recs |-> T1], [mode |-> "ok", recs |-> T2]}
+OutErr == [mode |-> "err", recs |-> NoVals]
+OutEmpty == [mode |-> "ok", recs |-> NoVals]
+HistOuts == {OutErr, OutEmpty, [mode |-> "ok", recs |-> T1], [mode |-> "ok", recs |-> T2]}
+
+\* index sets of the by-index queries: everybody's index and nobody's (999); a few of ours, one that the
+\* specifiers refuse (W/b) and nobody's; a few of ours; none
+AllIdx == {IndexOf(n) : n \in AllNames} \cup {999}
+HistIdxs == {AllIdx, {IndexOf(Wn(<<"a">>)), IndexOf(Wn(<<"b">>)), 999},
+             {IndexOf(Vn(<<"b">>)), IndexOf(Wn(<<"a", "a">>)), IndexOf(Wn(<<"a", "b">>))}, {}}
+
+\* all four queries for one epoch and index set, each by-index form right after its plain form
+QueryAll(e, idxs) == <<QueryJson("validating", e, {}), QueryJson("validating_by_index", e, idxs),
+                       QueryJson("sync", e, {}), QueryJson("sync_by_index", e, idxs)>>
+
+Count(h, ev) == Cardinality({i \in 1..Len(h) : h[i].ev = ev})
+RefreshHeld(h) == Count(h, "RefreshBegin") > Count(h, "RefreshEnd")
+QueryHeld(h) == Count(h, "QueryBegin") > Count(h, "QueryEnd")
+Refreshed(h) == Count(h, "Refresh") + Count(h, "RefreshBegin") > 0
+
+HistStep(h) ==
+    \/ \E offer \in HistOffers, out \in HistOuts, held \in BOOLEAN :
+          /\ ~RefreshHeld(h)
+          \* the wallet manager's constructor performs the first refresh and needs the node; a query needs
+          \* the constructed service: the first refresh is taken as a whole
+          /\ ~Refreshed(h) => (~held /\ (h[1].mgr = "wallet" => out.mode = "ok"))
+          /\ hist' = Append(h, [RefreshJson(offer, out) EXCEPT !.ev = IF held THEN "RefreshBegin" ELSE "Refresh"])
+    \/ /\ RefreshHeld(h)
+       /\ hist' = Append(h, [ev |-> "RefreshEnd"])
+    \/ /\ Refreshed(h)
+       /\ \E e \in {1, 3}, idxs \in HistIdxs : hist' = h \o QueryAll(e, idxs)
+    \/ /\ Refreshed(h) /\ ~QueryHeld(h)
+       /\ \E kind \in Kinds, e \in {1, 3}, idxs \in HistIdxs, hold \in {"before", "after"} :
+             /\ kind \in ByIndexKinds \/ idxs = {}
+             /\ hist' = Append(h, [QueryJson(kind, e, idxs) EXCEPT !.ev = "QueryBegin"] @@ [hold |-> hold])
+    \/ /\ QueryHeld(h)
+       /\ hist' = Append(h, [ev |-> "QueryEnd"])
 
 HistNext ==
     \/ /\ hist = <<>>
        /\ \E m \in Mgrs : hist' = <<ResetJson(m, HistCfg)>>
     \/ /\ hist # <<>> /\ Len(hist) <= ScenLen
-       /\ \/ \E offer \in HistOffers, out \in HistOuts :
-                \* the wallet manager reads local stores (always everything); its constructor needs the node
-                /\ hist[1].mgr = "wallet" => (offer = AllNames /\ (Len(hist) = 1 => out.mode = "ok"))
-                /\ hist' = Append(hist, RefreshJson(offer, out))
-          \/ /\ Len(hist) > 1
-             /\ \E kind \in {"validating", "sync"}, e \in {1, 3} :
-                   hist' = Append(hist, QueryJson(kind, e, {}))
+       /\ HistStep(hist)
+    \* the history is over: what is still held is let go
+    \/ /\ Len(hist) > ScenLen /\ RefreshHeld(hist)
+       /\ hist' = Append(hist, [ev |-> "RefreshEnd"])
+    \/ /\ Len(hist) > ScenLen /\ ~RefreshHeld(hist) /\ QueryHeld(hist)
+       /\ hist' = Append(hist, [ev |-> "QueryEnd"])
+
+\* ---- family "vanish" (exhaustive)
+VOffers == {AllNames, S1}
+VShrunk == {AllNames \ {Wn(<<"a">>)}, AllNames \ {Vn(<<"b">>)}, S1 \ {Wn(<<"a", "b">>)}, S2, {}}
+VTabs == {[mode |-> "ok", recs |-> T1], [mode |-> "ok", recs |-> T2]}
+
+VRef(ev, offer, out) == [RefreshJson(offer, out) EXCEPT !.ev = ev]
+VBegin(kind, e, hold) ==
+    [QueryJson(kind, e, IF kind \in ByIndexKinds THEN AllIdx ELSE {}) EXCEPT !.ev = "QueryBegin"] @@ [hold |-> hold]
+
+\* taken as a whole: the table kept through an error / an empty answer still has the validator
+VWhole(o1, o2, t1, e) ==
+    {<<VRef("Refresh", o1, t1), VRef("Refresh", o2, out)>> \o QueryAll(e, AllIdx) : out \in {OutErr, OutEmpty}}
+\* held between its parts: the accounts are gone, the table is still the old one
+VHeld(o1, o2, t1, e) ==
+    {<<VRef("Refresh", o1, t1), VRef("RefreshBegin", o2, out)>> \o QueryAll(e, AllIdx)
+        \o <<[ev |-> "RefreshEnd"]>> \o QueryAll(e, AllIdx) : out \in {OutErr} \cup (VTabs \ {t1})}
+\* running while a query is under way
+VOver(o1, o2, t1, e) ==
+    {<<VRef("Refresh", o1, t1), VBegin(kind, e, hold), VRef("Refresh", o2, out), [ev |-> "QueryEnd"]>> \o QueryAll(e, AllIdx)
+        : kind \in {"validating", "sync_by_index"}, hold \in {"before", "after"}, out \in {OutErr} \cup (VTabs \ {t1})}
+
+VanishBodies ==
+    UNION {VWhole(o1, o2, t1, e) \cup VHeld(o1, o2, t1, e) \cup VOver(o1, o2, t1, e)
+              : o1 \in VOffers, o2 \in VShrunk, t1 \in VTabs, e \in {1, 3}}
 
 SInit == Init /\ hist = <<>>
 
+VanishNext ==
+    /\ hist = <<>>
+    /\ \E m \in Mgrs, b \in VanishBodies : hist' = <<ResetJson(m, HistCfg)>> \o b
+
 SNext ==
     /\ UNCHANGED vars
-    /\ CASE Mode = "match" -> MatchNext
-         [] Mode = "life"  -> LifeNext
-         [] Mode = "hist"  -> HistNext
+    /\ CASE Mode = "match"  -> MatchNext
+         [] Mode = "life"   -> LifeNext
+         [] Mode = "hist"   -> HistNext
+         [] Mode = "vanish" -> VanishNext
 
 SSpec == SInit /\ [][SNext]_svars
 
-Done == CASE Mode = "match" -> hist # <<>>
-          [] Mode = "life"  -> Len(hist) > 5
-          [] Mode = "hist"  -> Len(hist) = ScenLen + 1
+Done == CASE Mode = "match"  -> hist # <<>>
+          [] Mode = "life"   -> Len(hist) > 5
+          [] Mode = "hist"   -> Len(hist) > ScenLen /\ ~RefreshHeld(hist) /\ ~QueryHeld(hist)
+          [] Mode = "vanish" -> hist # <<>>
 
 Emit == Done => PrintT(ToJson(hist))
 =============================================================================
